@@ -11,3 +11,4 @@ let c08 (line : string) : string =
   | _ -> failwith "c08: bad case"
 
 let () = Reg.register "C08" c08
+let () = Reg.register "C08B" c08
